@@ -162,6 +162,9 @@ func (s *srvConn) drainAfterFailureLenient(r *negRec) {
 					s.send(fmt.Sprintf("<iq type='result' id='%s'/>", id))
 				}
 			}
+			if u.name == "enable" {
+				s.send("<enabled xmlns='" + nsSM + "' id='after-failure'/>")
+			}
 		}
 	}
 }
@@ -463,7 +466,7 @@ func (s *srvConn) serve(cfg *negCfg, r *negRec) {
 			}
 			r.SessionSeen++
 			id := attr(u.raw, "id")
-			a := cfg.pick("session", "result", "error", "malformed", "close")
+			a := cfg.pick("session", "result", "error", "malformed", "close", "other-stanza", "stream-error", "iq-get", "features")
 			r.answer("session", a, a == "result")
 			switch a {
 			case "result":
@@ -481,8 +484,16 @@ func (s *srvConn) serve(cfg *negCfg, r *negRec) {
 			case "close":
 				s.close()
 				return
+			case "other-stanza":
+				s.send("<message xmlns='jabber:client' from='example.org'><body>x</body></message>")
+			case "stream-error":
+				s.send("<stream:error><internal-server-error xmlns='urn:ietf:params:xml:ns:xmpp-streams'/></stream:error>")
+			case "iq-get":
+				s.send(fmt.Sprintf("<iq type='get' id='%s' from='example.org'><ping xmlns='urn:xmpp:ping'/></iq>", id))
+			case "features":
+				s.send("<stream:features/>")
 			}
-			s.drainAfterFailure(r)
+			s.drainAfterFailureLenient(r)
 			return
 		case u.name == "enable":
 			if r.phase != "bound" || r.EnableSeen > 0 {
